@@ -166,78 +166,104 @@ def run(chk, facts_by_config):
                         chk.violation('B-output-not-read', '%s|%s|read-through-get_out' % (cfgname, pretty(f['full'])),
                                       '%s (%s): a value is read through the reference returned by InOut::get_out()' % (pretty(f['full']), fn_loc(f)))
             chk.ok('B-output-not-read', '%s|%s' % (cfgname, pretty(f['full'])))
-        # ---------------- L, B1, B3 (terms)
-        nL = 0
-        with equiv.TermMode():
-            for (self_ty, trait, single, par) in backend_pairs(m):
-                sname = pretty(m.ty(self_ty)['s'])
-                direction = 'enc' if trait == ENC else 'dec'
-                base = '%s|%s|%s' % (cfgname, sname, direction)
-                engine._INTERPS.clear()
-                I, st, status, r, in_obj, out_obj, before = run_backend(m, single, self_ty, None, 'a')
-                if status != 'ok':
-                    chk.fail_closed('analysis', base + '|single|' + status, '%s: %s' % (sname, str(r)[:200]))
-                    continue
-                inout_ty = m.ty(single['mir']['locals'][2])
-                block_ty = [I.types[fd['t']]['t'] for fd in inout_ty['variants'][0]['f'] if I.types[fd['t']]['k'] == 'ptr'][0]
-                # B1
-                if st.mem.get(in_obj) is before:
-                    chk.ok('B-input-untouched', base + '|single')
-                else:
-                    chk.violation('B-input-untouched', base + '|single', '%s::%srypt_block stores into the separate input buffer' % (sname, direction))
-                # B3
-                ob = flatten(I, st.mem[out_obj], block_ty) or []
-                stale = [i for i, b in enumerate(ob) if b.term is not None and mentions(b.term, 'o')]
-                if stale:
-                    chk.violation('B-output-not-read', base + '|single|stale-output',
-                                  '%s::%srypt_block: output byte %d depends on the previous content of the output buffer' % (sname, direction, stale[0]))
-                else:
-                    chk.ok('B-output-not-read', base + '|single|terms')
-                if par is None:
-                    continue
-                # L: lanes
-                pio = m.ty(par['mir']['locals'][2])
-                pblock_ty = [I.types[fd['t']]['t'] for fd in pio['variants'][0]['f'] if I.types[fd['t']]['k'] == 'ptr'][0]
-                Ip, stp, status, r, pin, pout, pbefore = run_backend(m, par, self_ty, None, 'p')
-                if status != 'ok':
-                    chk.fail_closed('analysis', base + '|par|' + status, '%s: %s' % (sname, str(r)[:200]))
-                    continue
-                if stp.mem.get(pin) is pbefore:
-                    chk.ok('B-input-untouched', base + '|par')
-                else:
-                    chk.violation('B-input-untouched', base + '|par', '%s::%srypt_par_blocks stores into the separate input buffer' % (sname, direction))
-                pin_val = pbefore
-                pout_val = stp.mem[pout]
-                lanes_in = lanes_of(pin_val)
-                lanes_out = lanes_of(pout_val)
-                if lanes_in is None or lanes_out is None or len(lanes_in) != len(lanes_out):
-                    chk.fail_closed('L-lane-agreement', base + '|shape', 'cannot split ParBlocks into lanes')
-                    continue
-                undec = sname.startswith(PAR_UNDECIDED)
-                for i, (li, lo) in enumerate(zip(lanes_in, lanes_out)):
-                    nL += 1
-                    key = base + '|lane%d' % i
-                    Is, sts, status, r, sin, sout, _b = run_backend(m, single, self_ty, li, 'l%d' % i)
-                    if status != 'ok':
-                        chk.fail_closed('L-lane-agreement', key + '|' + status, str(r)[:200])
-                        continue
-                    a = flatten(Is, sts.mem[sout], block_ty)
-                    b = flatten(Ip, lo, block_ty)
-                    if a is None or b is None:
-                        chk.fail_closed('L-lane-agreement', key + '|flatten', 'block not flattenable')
-                        continue
-                    diff = [(j, x.term, y.term) for j, (x, y) in enumerate(zip(a, b)) if x.term is None or x.term is not y.term]
-                    if not diff:
-                        chk.ok('L-lane-agreement', key, dict(backend=sname, direction=direction, lane=i, lanes=len(lanes_in)) if i == 0 else None)
-                    elif undec:
-                        if not any(u.startswith(sname) for u in chk.undecided):
-                            chk.undecided.append('%s: lanes are interleaved in one bitsliced state' % sname)
-                    else:
-                        j, x, y = diff[0]
-                        chk.violation('L-lane-agreement', key,
-                                      '%s::%srypt_par_blocks: output lane %d byte %d is not the single-block result for input lane %d: %s' % (
-                                          sname, direction, i, j, i, T.first_diff(y, x)))
-        chk.floor('L-lane-agreement', nL, 'L.' + cfgname)
+        # ---------------- L, B1, B3 (terms): one job per backend impl, run in a process pool (see run_terms)
+        pass
+    run_terms(chk, facts_by_config)
+
+
+def backend_job(job):
+    """all term checks for one backend impl; returns a list of (kind, rule, key, payload)"""
+    cfgname, fdir, self_ty, trait = job
+    F = Facts(cfgname, fdir)
+    m = F.mono
+    pair = [p for p in backend_pairs(m) if p[0] == self_ty and p[1] == trait][0]
+    _st, _tr, single, par = pair
+    out = []
+    sname = pretty(m.ty(self_ty)['s'])
+    direction = 'enc' if trait == ENC else 'dec'
+    base = '%s|%s|%s' % (cfgname, sname, direction)
+    with equiv.TermMode():
+        engine._INTERPS.clear()
+        I, st, status, r, in_obj, out_obj, before = run_backend(m, single, self_ty, None, 'a')
+        if status != 'ok':
+            return [('fc', 'analysis', base + '|single|' + status, '%s: %s' % (sname, str(r)[:200]))]
+        inout_ty = m.ty(single['mir']['locals'][2])
+        block_ty = [I.types[fd['t']]['t'] for fd in inout_ty['variants'][0]['f'] if I.types[fd['t']]['k'] == 'ptr'][0]
+        if st.mem.get(in_obj) is before:
+            out.append(('ok', 'B-input-untouched', base + '|single', None))
+        else:
+            out.append(('v', 'B-input-untouched', base + '|single', '%s::%srypt_block stores into the separate input buffer' % (sname, direction)))
+        ob = flatten(I, st.mem[out_obj], block_ty) or []
+        stale = [i for i, b in enumerate(ob) if b.term is not None and mentions(b.term, 'o')]
+        if stale:
+            out.append(('v', 'B-output-not-read', base + '|single|stale-output',
+                        '%s::%srypt_block: output byte %d depends on the previous content of the output buffer' % (sname, direction, stale[0])))
+        else:
+            out.append(('ok', 'B-output-not-read', base + '|single|terms', None))
+        if par is None:
+            return out
+        Ip, stp, status, r, pin, pout, pbefore = run_backend(m, par, self_ty, None, 'p')
+        if status != 'ok':
+            out.append(('fc', 'analysis', base + '|par|' + status, '%s: %s' % (sname, str(r)[:200])))
+            return out
+        if stp.mem.get(pin) is pbefore:
+            out.append(('ok', 'B-input-untouched', base + '|par', None))
+        else:
+            out.append(('v', 'B-input-untouched', base + '|par', '%s::%srypt_par_blocks stores into the separate input buffer' % (sname, direction)))
+        lanes_in = lanes_of(pbefore)
+        lanes_out = lanes_of(stp.mem[pout])
+        if lanes_in is None or lanes_out is None or len(lanes_in) != len(lanes_out):
+            out.append(('fc', 'L-lane-agreement', base + '|shape', 'cannot split ParBlocks into lanes'))
+            return out
+        undec = sname.startswith(PAR_UNDECIDED)
+        for i, (li, lo) in enumerate(zip(lanes_in, lanes_out)):
+            key = base + '|lane%d' % i
+            Is, sts, status, r, sin, sout, _b = run_backend(m, single, self_ty, li, 'l%d' % i)
+            if status != 'ok':
+                out.append(('fc', 'L-lane-agreement', key + '|' + status, str(r)[:200]))
+                continue
+            a = flatten(Is, sts.mem[sout], block_ty)
+            b = flatten(Ip, lo, block_ty)
+            if a is None or b is None:
+                out.append(('fc', 'L-lane-agreement', key + '|flatten', 'block not flattenable'))
+                continue
+            diff = [(j, x.term, y.term) for j, (x, y) in enumerate(zip(a, b)) if x.term is None or x.term is not y.term]
+            if not diff:
+                out.append(('okL', 'L-lane-agreement', key, dict(backend=sname, direction=direction, lane=i, lanes=len(lanes_in)) if i == 0 else None))
+            elif undec:
+                out.append(('undec', 'L-lane-agreement', key, '%s: lanes are interleaved in one bitsliced state' % sname))
+            else:
+                j, x, y = diff[0]
+                out.append(('vL', 'L-lane-agreement', key,
+                            '%s::%srypt_par_blocks: output lane %d byte %d is not the single-block result for input lane %d: %s' % (
+                                sname, direction, i, j, i, T.first_diff(y, x))))
+    return out
+
+
+def run_terms(chk, facts_by_config):
+    import multiprocessing as mp
+    jobs = []
+    for cfgname, F in facts_by_config.items():
+        for (self_ty, trait, single, par) in backend_pairs(F.mono):
+            jobs.append((cfgname, F.dir, self_ty, trait))
+    with mp.Pool(min(16, os.cpu_count() or 4)) as pool:
+        results = pool.map(backend_job, jobs, chunksize=1)
+    nL = {}
+    for job, res in zip(jobs, results):
+        for (kind, rule, key, payload) in res:
+            if kind in ('ok', 'okL'):
+                chk.ok(rule, key, payload)
+            elif kind == 'fc':
+                chk.fail_closed(rule, key, payload)
+            elif kind == 'undec':
+                if payload not in chk.undecided:
+                    chk.undecided.append(payload)
+            else:
+                chk.violation(rule, key, payload)
+            if kind in ('okL', 'vL', 'undec'):
+                nL[job[0]] = nL.get(job[0], 0) + 1
+    for cfgname in facts_by_config:
+        chk.floor('L-lane-agreement', nL.get(cfgname, 0), 'L.' + cfgname)
 
 
 def lanes_of(v):
